@@ -9,7 +9,7 @@
    are universally quantified oracles.  A peer is an arbitrary list of messages, or an
    arbitrary adaptive strategy. *)
 From Coq Require Import ZArith List Bool.
-From BV Require Import Lib.AuthBase Gen.K_auth Model.Auth Proofs.AuthProofs.
+From BV Require Import Lib.AuthBase Gen.K_auth Model.Auth Proofs.AuthProofs Proofs.AuthFaultProofs.
 Import ListNotations.
 Open Scope Z_scope.
 
@@ -216,6 +216,138 @@ Theorem C18_key_type : forall mac t u inc,
     run1 (code_client mac (KOther t) u) inc = ([], Raised TypeError).
 Proof. intros mac t u inc. repeat split. Qed.
 Print Assumptions C18_key_type.
+
+(* ==== channel faults: every send_bytes call of either party may fail (`fl i` /
+   `fa i` / `fb i` : what the i-th send call of that side meets -- None = delivered,
+   Some e = the call raises e and nothing is delivered), every recv_bytes call of a
+   side facing an arbitrary peer meets `Msg m` or `RFail e` (the call raises e).
+   All oracles are universally quantified. ==== *)
+
+(* ---- faults never create acceptance: a run over a faulty channel that hands out a
+   connection is a run over the perfect channel on the same peer messages that hands
+   out a connection, and none of the sends it made failed *)
+Theorem C18_faults_never_create_acceptance : forall mac key u inc fl sent,
+    (run1f (code_listener mac key u) inc fl 0 = (sent, Returned) ->
+     exists msgs rest,
+       inc = map Msg msgs ++ rest /\ run1 (code_listener mac key u) msgs = (sent, Returned) /\
+       (forall j, (j < length sent)%nat -> fl j = None)) /\
+    (run1f (code_client mac key u) inc fl 0 = (sent, Returned) ->
+     exists msgs rest,
+       inc = map Msg msgs ++ rest /\ run1 (code_client mac key u) msgs = (sent, Returned) /\
+       (forall j, (j < length sent)%nat -> fl j = None)).
+Proof.
+  intros mac key u inc fl sent.
+  split; [exact (code_listener_f_reduces mac key u inc fl sent)
+         |exact (code_client_f_reduces mac key u inc fl sent)].
+Qed.
+Print Assumptions C18_faults_never_create_acceptance.
+
+(* ---- whatever sends or receives fail, a connection is returned only to a peer whose
+   answer is exactly mac key challenge -- and then no send of the three failed *)
+Theorem C18_listener_accepts_exactly_under_faults : forall mac k0 k u inc fl sent,
+    let key := k0 :: k in
+    run1f (code_listener mac (KBytes key) u) inc fl 0 = (sent, Returned) <->
+    exists x rest,
+      inc = Msg (mac key (u 20)) :: Msg (K_auth.CHALLENGE ++ x) :: Msg K_auth.WELCOME :: rest /\
+      blen (mac key (u 20)) <= 256 /\ blen (K_auth.CHALLENGE ++ x) <= 256 /\
+      fl 0%nat = None /\ fl 1%nat = None /\ fl 2%nat = None /\
+      sent = [K_auth.CHALLENGE ++ u 20; K_auth.WELCOME; mac key x].
+Proof. intros mac k0 k u inc fl sent. exact (listener_role_f_returns_iff mac (k0 :: k) u inc fl sent). Qed.
+Print Assumptions C18_listener_accepts_exactly_under_faults.
+
+Theorem C18_client_accepts_exactly_under_faults : forall mac key u inc fl sent,
+    run1f (code_client mac (KBytes key) u) inc fl 0 = (sent, Returned) <->
+    exists x rest,
+      inc = Msg (K_auth.CHALLENGE ++ x) :: Msg K_auth.WELCOME :: Msg (mac key (u 20)) :: rest /\
+      blen (K_auth.CHALLENGE ++ x) <= 256 /\ blen (mac key (u 20)) <= 256 /\
+      fl 0%nat = None /\ fl 1%nat = None /\ fl 2%nat = None /\
+      sent = [mac key x; K_auth.CHALLENGE ++ u 20; K_auth.WELCOME].
+Proof. intros mac key u inc fl sent. exact (client_role_f_returns_iff mac key u inc fl sent). Qed.
+Print Assumptions C18_client_accepts_exactly_under_faults.
+
+Theorem C18_wrong_digest_refused_under_faults : forall mac k0 k u inc fl sent,
+    (run1f (code_listener mac (KBytes (k0 :: k)) u) inc fl 0 = (sent, Returned) ->
+     exists rest, inc = Msg (mac (k0 :: k) (u 20)) :: rest) /\
+    (run1f (code_client mac (KBytes (k0 :: k)) u) inc fl 0 = (sent, Returned) ->
+     exists m v rest, inc = Msg m :: Msg v :: Msg (mac (k0 :: k) (u 20)) :: rest).
+Proof.
+  intros mac k0 k u inc fl sent.
+  split; [exact (listener_f_refuses_wrong_digest mac k0 k u inc fl sent)
+         |exact (client_f_refuses_wrong_digest mac (k0 :: k) u inc fl sent)].
+Qed.
+Print Assumptions C18_wrong_digest_refused_under_faults.
+
+(* ---- the verdict cannot be delivered: whatever the peer answered (<= 256 bytes) and
+   whatever error e the send of WELCOME / FAILURE meets, deliver_challenge ends with
+   that error -- it does not return, so neither accept() nor Client() does *)
+Theorem C18_failed_verdict_send_raises : forall mac key u k r rest fl i e,
+    fl i = None -> fl (S i) = Some e -> blen r <= 256 ->
+    run1f (K_auth.deliver_challenge mac key u k) (Msg r :: rest) fl i =
+    ([K_auth.CHALLENGE ++ u 20], Raised e).
+Proof. exact failed_verdict_send_raises. Qed.
+Print Assumptions C18_failed_verdict_send_raises.
+
+(* ---- a failed send is never absorbed: nothing is delivered by a side after one of
+   its send calls failed (any role term) *)
+Theorem C18_nothing_after_failed_send : forall mac key u inc fl sent o j e,
+    run1f (code_client mac key u) inc fl 0 = (sent, o) \/
+    run1f (code_listener mac key u) inc fl 0 = (sent, o) ->
+    fl j = Some e -> (length sent <= j)%nat.
+Proof.
+  intros mac key u inc fl sent o j e [H|H] F;
+    exact (run1f_nothing_after_failed_send _ _ _ _ _ _ H j e (Nat.le_0_l j) F).
+Qed.
+Print Assumptions C18_nothing_after_failed_send.
+
+(* ---- listener against client, each with its own send oracle: the complete outcome
+   (Proofs/AuthFaultProofs.expected_f: the party whose send fails ends with that error,
+   the other one waits for a message that never comes) ... *)
+Theorem C18_handshake_under_faults : forall mac n k0 k kc ul uc fa fb,
+    let kl := k0 :: k in
+    blen (ul 20) = 20 -> blen (uc 20) = 20 ->
+    blen (mac kc (ul 20)) <= 256 -> blen (mac kl (uc 20)) <= 256 ->
+    code_handshake_f mac (13 + n) (KBytes kl) (KBytes kc) ul uc fa fb =
+    expected_f mac kl kc (ul 20) (uc 20) fa fb.
+Proof. exact code_handshake_f_outcome. Qed.
+Print Assumptions C18_handshake_under_faults.
+
+(* ... and what it implies: if EITHER side is handed a connection then both are, both
+   digest equations hold and no send failed; over a perfect channel the outcome is
+   the one of the theorems above *)
+Theorem C18_faults_mutual : forall mac n k0 k kc ul uc fa fb,
+    let kl := k0 :: k in
+    let cl := ul 20 in
+    let cc := uc 20 in
+    blen cl = 20 -> blen cc = 20 -> blen (mac kc cl) <= 256 -> blen (mac kl cc) <= 256 ->
+    let r := code_handshake_f mac (13 + n) (KBytes kl) (KBytes kc) ul uc fa fb in
+    (fst (fst r) = Returned \/ fst (snd r) = Returned ->
+     fst (fst r) = Returned /\ fst (snd r) = Returned /\
+     mac kc cl = mac kl cl /\ mac kl cc = mac kc cc /\
+     fa 0%nat = None /\ fa 1%nat = None /\ fa 2%nat = None /\
+     fb 0%nat = None /\ fb 1%nat = None /\ fb 2%nat = None) /\
+    ((forall i, fa i = None) -> (forall i, fb i = None) ->
+     r = code_handshake mac (13 + n) (KBytes kl) (KBytes kc) ul uc).
+Proof. exact code_faults_mutual. Qed.
+Print Assumptions C18_faults_mutual.
+
+(* non-vacuity of the fault theorems: different keys, the listener's FAILURE meets a
+   broken pipe: BrokenPipeError (not a connection); same key, the client's final WELCOME
+   meets a reset: the client raises, the listener waits; a scripted server answers the
+   client's challenge wrongly and the client's FAILURE meets a broken pipe, although
+   the server goes on talking: BrokenPipeError *)
+Example C18_fault_witness :
+  code_handshake_f toy_mac 13 (KBytes [1; 2; 3]) (KBytes [1; 2; 4]) (const20 7) (const20 9)
+                   (fail_at 1 BrokenPipeError) no_faults =
+  ((Raised BrokenPipeError, [K_auth.CHALLENGE ++ const20 7 20]), (Starved, [[1; 2; 4]])) /\
+  code_handshake_f toy_mac 13 (KBytes [1; 2; 3]) (KBytes [1; 2; 3]) (const20 7) (const20 9)
+                   no_faults (fail_at 2 ConnectionResetError) =
+  ((Starved, [K_auth.CHALLENGE ++ const20 7 20; K_auth.WELCOME; [1; 2; 3]]),
+   (Raised ConnectionResetError, [[1; 2; 3]; K_auth.CHALLENGE ++ const20 9 20])) /\
+  run1f (code_client toy_mac (KBytes [1; 2; 3]) (const20 9))
+        [Msg (K_auth.CHALLENGE ++ [5]); Msg K_auth.WELCOME; Msg [0; 0]; Msg [42]]
+        (fail_at 2 BrokenPipeError) 0 =
+  ([[1; 2; 3]; K_auth.CHALLENGE ++ const20 9 20], Raised BrokenPipeError).
+Proof. exact code_toy_fault_witness. Qed.
 
 (* ---- non-vacuity: a MAC that is injective in the key satisfies the hypothesis of
    C18_iff_same_key, and the conclusions computed on concrete keys one bit apart *)
